@@ -49,7 +49,48 @@ func (cf *Frame) evalModLocs(ct *Contract, pre *State) []modLoc {
 			}
 			pt, ok := cf.subst(sl.Elem()).Underlying().(*types.Pointer)
 			if !ok {
-				sfail("modifies %s: not a slice of pointers", item)
+				// a slice of struct values: xs[*].a.b.p.field - follow value fields a.b to a pointer field p, the
+				// location is `field` of every object such a p points to
+				segs := strings.Split(item[k+len("[*]."):], ".")
+				cur := cf.subst(sl.Elem())
+				var accs []func(*Term) *Term
+				var ptr *types.Pointer
+				n := 0
+				for ; n < len(segs) && ptr == nil; n++ {
+					if !isStructT(cur) {
+						sfail("modifies %s: %s is not a struct value", item, segs[n])
+					}
+					si := cf.structInfo(cur)
+					fi := si.FieldIndex(segs[n])
+					if fi < 0 {
+						sfail("modifies %s: no field %s", item, segs[n])
+					}
+					accs = append(accs, func(v *Term) *Term { return si.Get(v, fi) })
+					cur = cf.subst(si.Fields[fi].Type)
+					if p, isPtr := cur.Underlying().(*types.Pointer); isPtr {
+						ptr = p
+					}
+				}
+				if ptr == nil || n >= len(segs) {
+					sfail("modifies %s: the path must reach a pointer field followed by a field of its pointee", item)
+				}
+				psi := cf.structInfo(ptr.Elem())
+				pfi := psi.FieldIndex(segs[n])
+				if pfi < 0 {
+					sfail("modifies %s: no field %s", item, segs[n])
+				}
+				xs := cf.asTerm(x.V)
+				E := cf.ctx.comp(pre, cf.eName(sl.Elem()), ArrS(SInt, ArrS(SInt, cf.sortOf(sl.Elem()))))
+				out = append(out, modLoc{comp: compF(psi, pfi), srt: ArrS(SInt, psi.Fields[pfi].Sort), member: func(r *Term) *Term {
+					quantCounter++
+					sv := Atom(fmt.Sprintf("s!mem%d", quantCounter), SInt)
+					v := Select(Select(E, SlcBase(xs)), Slot(SlcOff(xs), sv))
+					for _, a := range accs {
+						v = a(v)
+					}
+					return Exists([]*Term{sv}, And(Le(IntLit(0), sv), Lt(sv, SlcLen(xs)), Eq(v, r)))
+				}})
+				continue
 			}
 			si := cf.structInfo(pt.Elem())
 			fi := si.FieldIndex(fieldName)
